@@ -372,15 +372,30 @@ def run_runs(case, res):
                 msgs += fm[:2]
                 if postponed:
                     res["nt"] += 1
-                if ew > eu:
-                    msgs.append(f"pruned run matches up to {ew}, unpruned only up to {eu}")
                 known = None
-                if ew == eu == T - 1 and cw[1] is not None and cu[1] is not None and cw[1] > cu[1] + 1e-9 * max(1.0, abs(cu[1])):
-                    text = f"pruned run reports log-probability {cw[1]} > unpruned {cu[1]}"
+                known19 = None
+                if ew > eu:
+                    text = f"pruned run matches up to {ew}, unpruned only up to {eu}"
                     blk = d16_blocked(mw, mu) if c.get("ne") else None
+                    sub = d19_suboptimal_substructure(mw, mu, c) if not blk else None
                     if blk:
                         known = (text + f"; non-emitting state {blk[0]} of the pruned best path is missing from the unpruned lattice, where "
                                         f"the same road state is already present for that observation gap as {blk[1]}")
+                    elif sub:
+                        known19 = (text + f"; on the pruned best path {sub[0]} -> {sub[1]}: the unpruned lattice holds a parent that is at least as "
+                                          f"probable ({sub[2]} vs {sub[3]}) but its child is less probable ({sub[4]} vs {sub[5]}); history-dependent term: {sub[6]}")
+                    else:
+                        msgs.append(text)
+                if ew == eu == T - 1 and cw[1] is not None and cu[1] is not None and cw[1] > cu[1] + 1e-9 * max(1.0, abs(cu[1])):
+                    text = f"pruned run reports log-probability {cw[1]} > unpruned {cu[1]}"
+                    blk = d16_blocked(mw, mu) if c.get("ne") else None
+                    sub = d19_suboptimal_substructure(mw, mu, c) if not blk else None
+                    if blk:
+                        known = (text + f"; non-emitting state {blk[0]} of the pruned best path is missing from the unpruned lattice, where "
+                                        f"the same road state is already present for that observation gap as {blk[1]}")
+                    elif sub:
+                        known19 = (text + f"; on the pruned best path {sub[0]} -> {sub[1]}: the unpruned lattice holds a parent that is at least as "
+                                          f"probable ({sub[2]} vs {sub[3]}) but its child is less probable ({sub[4]} vs {sub[5]}); history-dependent term: {sub[6]}")
                     else:
                         msgs.append(text)
                 if W > ncand and cw != cu:
@@ -390,7 +405,43 @@ def run_runs(case, res):
                     res["v"].append({"msg": f"{where} W={W}: {msg}", "case": mini})
                 if known and not msgs:
                     res["k"].append({"id": "D16", "msg": f"{where} W={W}: {known}", "case": mini})
+                if known19 and not msgs:
+                    res["k"].append({"id": "D19", "msg": f"{where} W={W}: {known19}", "case": mini})
     res["out"] = sorted(outs, key=repr)[:1000]
+
+
+def d19_suboptimal_substructure(mw, mu, cfg, tol=1e-12):
+    """D19 predicate: consecutive states (p, c) of the pruned best path such that the UNPRUNED lattice holds an entry for
+    p that is at least as probable as the pruned one, yet its entry for c is less probable, and the step p -> c carries a
+    HISTORY-DEPENDENT term:
+      (a) distance family, non-emitting on, c or p non-emitting: the transition uses the distances accumulated along the
+          predecessor chain (d_o, d_s);
+      (b) avoid_goingback=True: the unpruned p was reached from c's road state, so p -> c pays the going-back penalty there,
+          while on the pruned path p was reached from elsewhere.
+    In both cases the best candidate per lattice state is not an optimal sub-structure."""
+    def find(m, key):
+        col = m.lattice.get(key[-2])
+        if col is None or key[-1] >= len(col.o):
+            return None
+        return col.o[key[-1]].get(key)
+    lb = mw.lattice_best or []
+    for j, (p, c) in enumerate(zip(lb, lb[1:])):
+        pu, cu_ = find(mu, p.key), find(mu, c.key)
+        if pu is None or cu_ is None:
+            continue
+        if not (pu.logprob >= p.logprob - tol and cu_.logprob < c.logprob - 1e-9):
+            continue
+        why = None
+        if cfg.get("fam") == "D" and cfg.get("ne") and (c.obs_ne or p.obs_ne):
+            why = "accumulated distances"
+        elif cfg.get("avoid"):
+            pp_u = next(iter(pu.prev), None)
+            pp_w = lb[j - 1] if j > 0 else None
+            if pp_u is not None and pp_u.shortkey == c.shortkey and (pp_w is None or pp_w.shortkey != c.shortkey):
+                why = "going-back penalty"
+        if why:
+            return (p.key, c.key, round(pu.logprob, 6), round(p.logprob, 6), round(cu_.logprob, 6), round(c.logprob, 6), why)
+    return None
 
 
 def d16_blocked(mw, mu):
@@ -416,6 +467,28 @@ def d16_blocked(mw, mu):
             for o in nxt.o[0].values():
                 if o.shortkey == sk:
                     return (e.key, o.key)
+    # second form of the same guard problem (node states): linking a non-emitting chain to the next observation is
+    # compared with `lattice_best[state]`, which by then holds a NON-EMITTING entry of that road state, not the emitting
+    # candidate: p (non-emitting) -> c (emitting) on the pruned best path, the unpruned lattice has p at least as probable
+    # and c less probable, and holds c's road state inside the same gap at some non-emitting depth
+    def find(m, key):
+        col = m.lattice.get(key[-2])
+        if col is None or key[-1] >= len(col.o):
+            return None
+        return col.o[key[-1]].get(key)
+    lb = mw.lattice_best or []
+    for p, c in zip(lb, lb[1:]):
+        if not (p.obs_ne > 0 and c.obs_ne == 0):
+            continue
+        pu, cu_ = find(mu, p.key), find(mu, c.key)
+        if pu is None or cu_ is None or not (pu.logprob >= p.logprob - 1e-12 and cu_.logprob < c.logprob - 1e-9):
+            continue
+        col = mu.lattice.get(p.obs)
+        for k2, layer in enumerate(col.o if col is not None else ()):
+            if k2 >= 1:
+                for o in layer.values():
+                    if o.shortkey == c.shortkey:
+                        return (c.key, o.key)
     return None
 
 
